@@ -20,13 +20,22 @@ InitEmpty == {{}}
 AllPoints == GridPoints \cup LimitPoints
 SmallShifts == {<<dx, dy, dv>> : dx \in -2..2, dy \in -2..2, dv \in -1..1}
 WideShifts == {<<dx, dy, dv>> : dx \in (-4 * Pow2(M))..(4 * Pow2(M)), dy \in {-5, 0, 3}, dv \in {-1, 0, 1}}
+GenShifts == {<<dx, dy, dv>> : dx \in {-5, -4, -1, 0, 1, 3, 4, 8}, dy \in {-4, -1, 0, 1, 5}, dv \in {-1, 0, 2}}
+InitSub == {{s} : s \in SubVox}
 NoPoints == {}
 NoShifts == {}
 
 \* merge: the reduced grid (one quadrant column, vertical depth M) for set enumeration
 MergeVox == {s \in AllVox : s[1] <= 1 /\ s[2] \in {0, 1} /\ s[3] = 0}
 CompleteMinusOne(t, h, v) == LET D == ChangeZoomOne(t, h, v) IN {D} \cup {D \ {d} : d \in D}
-InitMerge == {S \in SUBSET MergeVox : Cardinality(S) <= 3 /\ S # {}}
+\* (pairs / triples are built directly: SUBSET of a 42-element set is not enumerable)
+MergeVoxSmall == {s \in MergeVox : s[4] <= 1}
+InitMerge == Pairs(MergeVox) \cup Triples(MergeVoxSmall)
              \cup UNION {CompleteMinusOne(t, h, v) :
                            t \in {s \in MergeVox : s[1] = 0}, h \in 0..1, v \in 0..M}
+InitMergeSmall == Pairs(MergeVoxSmall)
+InitMergeGen == Pairs(MergeVox)
+                \cup UNION {CompleteMinusOne(t, h, v) :
+                              t \in {s \in MergeVox : s[1] = 0}, h \in 0..1, v \in 0..M}
+InitSubPairs == Pairs(SubVox)
 =============================================================================
